@@ -67,7 +67,9 @@ func (s *concScen) threads() []func() {
 				if p.Trace {
 					sentinel.TraceError(e, errs[i])
 				}
-				vsched.Point(vsched.KUser, nil)
+				// the caller's own work between Entry and Exit: a yield, so that "the other thread runs
+				// while this entry is held" is the default schedule and costs no preemption
+				vsched.Yield()
 				ctx := e.Context()
 				r.argsOK = (p.Arg == "" && len(ctx.Input.Args) == 0) || (len(ctx.Input.Args) == 1 && ctx.Input.Args[0] == p.Arg)
 				r.errOK = (p.Trace && ctx.Err() == errs[i]) || (!p.Trace && ctx.Err() == nil)
